@@ -148,6 +148,8 @@ def run_check(pid, tier, seed):
     results = sxrun.explore_all(obs, log=log) if obs else {}
 
     # 3. aggregate, replay violations
+    import shutil
+    shutil.rmtree(os.path.join(OUT, 'replays', pid), ignore_errors=True)
     known = load_known()
     known_for = [k for k in known.get('known', []) if k.get('property') == pid]
     total_paths = total_dec = total_q = 0
